@@ -106,8 +106,19 @@ def finish(pid, tier, seed, t0, st, proof, res, level="proof", extra_assumptions
         exit_code = 1
         if n >= 5:
             break
+    # a disagreement that falls in a class listed in known_findings.txt for this property is a known finding;
+    # the same disagreement without a listing is a violation (the file is read-only at run time)
+    listed = known_findings_for(pid)
     for fid, ex in sorted(res.known.items()):
-        lines.append("KNOWN-FINDING: property=%s %s" % (pid, fid))
+        cls = [w.split("=", 1)[1] for w in fid.split() if w.startswith("class=")]
+        if any(l.get("class") in cls for l in listed):
+            lines.append("KNOWN-FINDING: property=%s %s" % (pid, fid))
+        else:
+            n += 1
+            path = common.write_replay(pid, n, dict(property=pid, seed=seed, tier=tier, case=ex, why=fid,
+                                                   how_to_replay="python3 check.py replay replays/%s-%d.json" % (pid, n)))
+            lines.append("VIOLATION property=%s replay=%s" % (pid, path))
+            exit_code = 1
     if exit_code == 0 and (not proof["ok"] or res.corr or st.get("translate_error")):
         what = {}
         if not proof["ok"]:
